@@ -22,20 +22,43 @@ ASSUMPTIONS = [
     'Python set iteration order does not reach any result: every QubitOperator(term) sorts its factors stably and '
     'equal indices only come from different pads (the Model uses sorted lists)',
 ]
-OPEN_STATEMENTS = []
+OPEN_STATEMENTS = [
+    'bk_exact / bk_majorana_exact are proved under the decidable hypothesis "exact regime" (no non-zero value deleted '
+    'by the |v| < EQ_TOLERANCE test of +=), evaluated by the Model on every generated input (distribution key '
+    'theorem-hypothesis exact-regime); the term-level theorems bk_term_exact / bk_majorana_term_exact are unconditional',
+    'bravyi_kitaev_tree (FenwickTree variant): NO theorem (the interval-forest facts for the recursive bisection are '
+    'not proved); covered by exact correspondence of the tree sets and of every ladder image for every n <= 24/40, and '
+    'by the Spec oracles c05.sets_check (tiling / storing sets of the bisection encoding) and c05.bk_check',
+    'srl_sound (_seeley_richard_love(i,j,c,n) denotes c a_i^dagger a_j under the encoding, cases 0-10): NOT proved; '
+    'only srl_cases_exhaustive (no pair i,j < n falls through the elif chain) is a theorem; soundness is covered by '
+    'exact correspondence for ALL i,j < n <= 14/24 (case histogram in the evidence) and the Spec oracle for n <= 8',
+    'bk_interaction_sound (the InteractionOperator path, cases A-D, equals the FermionOperator path, also for '
+    'n_qubits above the tensor size): NOT proved; correspondence + Spec oracle against the tensor formula + exact '
+    'comparison with bravyi_kitaev(get_fermion_operator(.), n_qubits)',
+    'CAR / diagonal number operators / vacuum / isospectrality with JW are consequences of bk_term_exact + '
+    'bk_enc_injective in the Spec semantics (Spec CAR lemmas live with C01/C07); not restated here',
+]
 
 
 class Batch:
     def __init__(self, ctx, stream):
         self.ctx, self.stream = ctx, stream
         self.items = []
+        self.regime = []
 
-    def add(self, what, case, impl, model_req, oracle_req=None, cmp=None):
+    def add(self, what, case, impl, model_req, oracle_req=None, cmp=None, regime_req=None):
         self.items.append((what, case, impl, model_req, oracle_req, cmp))
+        if regime_req is not None:
+            self.regime.append(regime_req)
 
     def flush(self):
         st = self.stream
         its, self.items = self.items, []
+        if self.regime:
+            # the decidable hypothesis of bk_exact, evaluated by the Model on this very input
+            for ok in self.ctx.driver.run(self.regime):
+                st.count('theorem-hypothesis exact-regime: %s' % ('holds' if ok else 'fails (tolerance deletion)'))
+            self.regime = []
         if not its:
             return
         answers = self.ctx.driver.run([it[3] for it in its])
@@ -184,12 +207,14 @@ def stream_srl(ctx):
     st = Stream('seeley-richard-love', '_qubit_operator_creation(*_seeley_richard_love(i, j, c, n)) for ALL i, j < n, '
                 'all n <= N (N = 14 quick, 24 thorough) with a complex dyadic coefficient; Model compared exactly (the '
                 'Model reports which of the cases 0-10 fired: histogram in the distribution; case 11 = no branch); Spec '
-                'oracle (n <= 8): the result acts like c a_i^dagger a_j under the encoding; distinct = (n,i,j,c)')
+                'oracle (n <= 8, and n <= 11/12 for the rare odd-odd cases 7-10): the result acts like c a_i^dagger a_j under the encoding; distinct = (n,i,j,c)')
     b = Batch(ctx, st)
     rng = rng_for(ctx.seed, 'c05-srl')
     N = budget(ctx.tier, 14, 24)
+    NO = budget(ctx.tier, 11, 12)   # oracle bound for the rare odd-odd cases 7-10
     if ctx.drift:
         N = max(N, 18)
+        NO = 12
 
     def cmp_srl(st_, what, case, impl, mo):
         st_.count('case:%d' % mo['case'])
@@ -218,7 +243,8 @@ def stream_srl(ctx):
                     st.violate('_seeley_richard_love returned %d strings (no branch fired)' % n_ops, case, {})
                 b.add('_seeley_richard_love', case, {'op': jQ, 'n_ops': n_ops},
                       {'op': 'c05.srl', 'i': i, 'j': j, 'coef': to_gq(c), 'n': n},
-                      oracle('bk', 'fermion', n, ['one_body_term', i, j, to_gq(c)], jQ) if n <= 8 else None,
+                      oracle('bk', 'fermion', n, ['one_body_term', i, j, to_gq(c)], jQ)
+                      if (n <= 8 or (n <= NO and i % 2 == 1 and j % 2 == 1 and i != j)) else None,
                       cmp=cmp_srl)
         if len(b.items) > 3000:
             b.flush()
@@ -263,7 +289,8 @@ def stream_random(ctx):
             jQ = enc_op('qubit', Q.terms)
             n = size if nq is None else nq
             b.add(variant + '(FermionOperator)', case, jQ, {'op': mop, 'n': n, 'A': jA},
-                  oracle(variant, 'fermion', n, ['op', jA], jQ) if n <= 9 else None)
+                  oracle(variant, 'fermion', n, ['op', jA], jQ) if n <= 9 else None,
+                  regime_req={'op': 'c05.fermion_ok', 'n': n, 'A': jA} if variant == 'bk' else None)
             if modes_of(jQ) > n:
                 st.violate('result acts on more than n_qubits qubits', case, {'terms': jQ})
             if variant == 'bk' and prev is not None and prev[2] == n and len(A.terms) * len(prev[0].terms) <= 9:
@@ -302,7 +329,8 @@ def stream_random(ctx):
         jQ = enc_op('qubit', Q.terms)
         n = size if nq is None else nq
         b.add('bravyi_kitaev(MajoranaOperator)', case, jQ, {'op': 'c05.majorana', 'n': n, 'A': jM},
-              oracle('bk', 'majorana', n, ['op', jM], jQ) if n <= 9 else None)
+              oracle('bk', 'majorana', n, ['op', jM], jQ) if n <= 9 else None,
+              regime_req={'op': 'c05.majorana_ok', 'n': n, 'A': jM})
         # the MajoranaOperator path agrees with the FermionOperator path
         ok, QF = call(st, 'bk(get_fermion_operator(M))', case,
                       lambda: of.transforms.bravyi_kitaev(of.transforms.get_fermion_operator(M), n))
@@ -320,7 +348,8 @@ def stream_interaction(ctx):
     st = Stream('interaction-operator', 'seeded random Hermitian InteractionOperators (real and complex, dense and '
                 'sparse, N <= 4 quick / 5 thorough) through bravyi_kitaev with n_qubits in {None, N, N+1, N+3}; Model '
                 'compared exactly; Spec oracle against the tensor formula written out term by term under the encoding '
-                'on n_qubits; compared exactly with bravyi_kitaev(get_fermion_operator(.), n_qubits); '
+                'on n_qubits; compared exactly with bravyi_kitaev(get_fermion_operator(.), n_qubits); plus sparse tensors with '
+                'a guaranteed four-distinct-mode quartic entry, N in {4,5,6} (thorough also 9,10), n_qubits in N..N+3; '
                 'distinct = (tensor, n_qubits)')
     b = Batch(ctx, st)
     rng = rng_for(ctx.seed, 'c05-iop')
@@ -360,6 +389,68 @@ def stream_interaction(ctx):
                 st.count('ValueError:n_qubits-too-small')
             except Exception as e:  # noqa
                 st.violate('n_qubits below the tensor size raised %s' % type(e).__name__, case, {})
+    b.flush()
+
+    # targeted: sparse tensors that are guaranteed to contain a two-body entry on FOUR DISTINCT modes, with
+    # n_qubits above the tensor size (the double-excitation case D with modes whose Fenwick ancestors differ
+    # only shows for N >= 5); the Spec operator is written out from the non-zero entries only (cheap oracle)
+    rng = rng_for(ctx.seed, 'c05-quartic')
+    sizes = [4, 5, 5, 6, 5, 6] + ([9, 10] if ctx.tier == 'thorough' else [])
+    for k in range(budget(ctx.tier, 45, 200)):
+        N = sizes[k % len(sizes)]
+        cplx = rng.random() < 0.7
+        one = numpy.zeros((N, N), dtype=complex)
+        two = numpy.zeros((N, N, N, N), dtype=complex)
+        n_terms = 1 if N >= 9 else rng.choice([1, 2, 2, 3])
+        for t in range(n_terms):
+            kind = 'quartic' if t == 0 and k % 3 != 2 else rng.choice(['quartic', 'number-excitation', 'coulomb',
+                                                                         'random', 'number-excitation'])
+            if kind == 'quartic':
+                idx = tuple(rng.sample(range(N), 4))
+            elif kind == 'number-excitation':      # n_i a_j^dagger a_k (case C)
+                i3, j3, k3 = rng.sample(range(N), 3)
+                idx = rng.choice([(i3, j3, k3, i3), (j3, i3, i3, k3), (i3, j3, i3, k3), (j3, i3, k3, i3)])
+            elif kind == 'coulomb':                # n_i n_j (case B)
+                i3, j3 = rng.sample(range(N), 2)
+                idx = rng.choice([(i3, j3, j3, i3), (i3, j3, i3, j3)])
+            else:
+                idx = tuple(rng.randrange(N) for _ in range(4))
+            st.count('sparse-entry:' + kind)
+            partner = (idx[3], idx[2], idx[1], idx[0])
+            from c04 import dy
+            v = dy(rng, cplx and idx != partner)
+            two[idx] = v
+            two[partner] = numpy.conj(v)
+        if rng.random() < 0.5:
+            a, c = rng.sample(range(N), 2)
+            v = dy(rng, cplx)
+            one[a, c] = v
+            one[c, a] = numpy.conj(v)
+        iop = of.InteractionOperator(rng.choice([0.0, 0.5]), one, two)
+        nq = N + rng.choice([0, 1, 2, 3, 1, 2])
+        # the Spec operator, from the tensor entries directly
+        A = [[[], to_gq(iop.constant)]]
+        for (a, c), v in numpy.ndenumerate(one):
+            if v != 0:
+                A.append([[[a, 1], [c, 0]], to_gq(v)])
+        for (a, c, d, e), v in numpy.ndenumerate(two):
+            if v != 0:
+                A.append([[[a, 1], [c, 1], [d, 0], [e, 0]], to_gq(v)])
+        case = {'fn': 'bravyi_kitaev', 'n_qubits': nq, 'interaction_operator_sparse': {'N': N, 'terms': A}}
+        st.case(case)
+        st.count('quartic:N=%d:n_qubits-N=%d' % (N, nq - N))
+        ok, Q = call(st, 'bravyi_kitaev(InteractionOperator)', case, lambda: of.transforms.bravyi_kitaev(iop, nq))
+        if not ok:
+            continue
+        jQ = enc_op('qubit', Q.terms)
+        b.add('bravyi_kitaev(InteractionOperator) quartic', case, jQ,
+              {'op': 'c05.iop', 'N': N, 'n': nq, 'constant': to_gq(iop.constant), 'one': flat(one), 'two': flat(two)},
+              oracle('bk', 'fermion', nq, ['op', A], jQ) if nq <= 10 else None)
+        ok, QF = call(st, 'bravyi_kitaev(get_fermion_operator(iop))', case,
+                      lambda: of.transforms.bravyi_kitaev(of.transforms.get_fermion_operator(iop), nq))
+        if ok and canon_nz(jQ) != canon_nz(enc_op('qubit', QF.terms)):
+            st.violate('InteractionOperator path differs from the FermionOperator path', case,
+                       {'fast': jQ, 'fermion_path': enc_op('qubit', QF.terms)})
     b.flush()
     return st
 
